@@ -468,6 +468,9 @@ def rules(ctx):
     r3b_rolling_window(ctx)
     r4_configuration_reaches_object(ctx)
     r5_temperature_updated_every_iteration(ctx)
+    # the annealing counts an algorithm derives (annealing.n_iter from its fraction, the plateau length) stay in its own copy of the parameters (same rule as C11.R7)
+    from .c11 import r7_deepcopy
+    r7_deepcopy(ctx, rid="C19.R6")
     ctx.assume("acceptation_history_length is a positive integer (documented precondition)")
     ctx.trust("Python int floor-division / modulo semantics")
 
